@@ -373,7 +373,7 @@ func runC20(r *core.Run) {
 				r.Violate("triangle", kind+"/luminance-sum", sp.Name+": "+msg, c20Case{Kind: kind, XY: sp.XY, YY: &y})
 			}
 		}
-		for _, ysc := range []float32{1e-9, 1e-6, 1e-4, 1e4, 1e9} {
+		for _, ysc := range []float32{1e-9, 1e-6, 1e-4, 0.18, 0.5, 2, 10, 50, 80, 99.5, 100, 100.5, 255, 1000, 65535, 1e4, 1e9} {
 			for _, yy4 := range [][4]float32{{ysc, ysc, ysc, ysc}, {1, 1, 1, ysc}, {ysc, ysc * 2, ysc / 2, 1}} {
 				kind, msg, _ := c20TriangleYY(sp.XY, yy4)
 				r.AddEvals(1)
